@@ -216,3 +216,56 @@ Theorem c05_source_frame_handler : forall st code f,
   /\ t_ack st' = (if has_init eff then clamp T_RX_ACK_INIT_F else t_ack st)
   /\ now st' = now st /\ waiters st' = waiters st /\ cancelled st' = cancelled st.
 Proof. exact src_apply_frame. Qed.
+
+(* ---- the positive halves: what arrives completes the send accordingly (proofs/AshHostPos_proofs.v) ----
+   (in every reachable state the frame number of the current send is below 8: cfrm_lt_8) *)
+Require Import BV.proofs.AshHostPos_proofs.
+
+Theorem c05_ack_completes : forall es c r n, let st := fst (host_run h_init es) in
+  cur st = Some c -> cfut c = FPending -> memN (cid c) (cancelled st) = false ->
+  In (HDone (cid c) OOk) (snd (host_step st (Frames [Ack r n ((cfrm c + 1) mod 8)]))).
+Proof. exact ack_completes_run. Qed.
+
+Theorem c05_piggybacked_ack_completes : forall es c frm re p, let st := fst (host_run h_init es) in
+  cur st = Some c -> cfut c = FPending -> memN (cid c) (cancelled st) = false ->
+  In (HDone (cid c) OOk) (snd (host_step st (Frames [Data frm re ((cfrm c + 1) mod 8) p]))).
+Proof. exact data_ack_completes_run. Qed.
+
+Theorem c05_error_fails_current_send : forall st c v code,
+  cur st = Some c -> cfut c = FPending -> memN (cid c) (cancelled st) = false ->
+  In (HDone (cid c) (OFailure code)) (snd (host_step st (Frames [Error v code])))
+  /\ In (HReset code) (snd (host_step st (Frames [Error v code]))).
+Proof. exact error_fails_current. Qed.
+
+(* a NAK (whose ackNum does not name the outstanding frame) repeats the frame at once, or - on the last permitted
+   attempt - fails the link, tells the upper layer and the caller *)
+Theorem c05_nak_repeats_or_fails : forall st c r n a,
+  cur st = Some c -> cfut c = FPending -> failed st = false ->
+  ((a + 7) mod 8 =? cfrm c) = false ->
+  ((ACK_TIMEOUTS - 1 <=? cattempt c) = false ->
+     exists t ack, In (HData (cid c) (cfrm c) 1 ack (cpayload c) t)
+                      (snd (host_step st (Frames [Nak r n a]))))
+  /\ ((ACK_TIMEOUTS - 1 <=? cattempt c) = true ->
+        In (HReset ERROR_EXCEEDED_MAXIMUM_ACK_TIMEOUT_COUNT) (snd (host_step st (Frames [Nak r n a])))
+        /\ failed (fst (host_step st (Frames [Nak r n a]))) = true
+        /\ (memN (cid c) (cancelled st) = false ->
+              In (HDone (cid c) ONotAcked) (snd (host_step st (Frames [Nak r n a]))))).
+Proof. exact nak_repeats_or_fails. Qed.
+
+Theorem c05_timeout_repeats_or_fails : forall st c,
+  cur st = Some c -> cfut c = FPending -> failed st = false ->
+  ((ACK_TIMEOUTS - 1 <=? cattempt c) = false ->
+     exists t ack, In (HData (cid c) (cfrm c) 1 ack (cpayload c) t) (snd (host_step st Tick)))
+  /\ ((ACK_TIMEOUTS - 1 <=? cattempt c) = true ->
+        In (HReset ERROR_EXCEEDED_MAXIMUM_ACK_TIMEOUT_COUNT) (snd (host_step st Tick))
+        /\ failed (fst (host_step st Tick)) = true
+        /\ (memN (cid c) (cancelled st) = false -> In (HDone (cid c) OTimeout) (snd (host_step st Tick)))).
+Proof. exact tick_repeats_or_fails. Qed.
+
+(* observation kept as an Example: a NAK whose ackNum names the outstanding frame acknowledges it (the
+   acknowledgement information of a NAK is used first) *)
+Example c05_nak_that_acknowledges :
+  let st := fst (host_run h_init [Submit 3 [1]]) in
+  filter (fun o => match o with HDone _ _ | HData _ _ _ _ _ _ => true | _ => false end)
+         (snd (host_step st (Frames [Nak 0 0 1]))) = [HDone 3 OOk].
+Proof. exact nak_that_acknowledges. Qed.
